@@ -12,6 +12,7 @@ import (
 	"sort"
 	"strings"
 	"sync"
+	"syscall"
 	"time"
 
 	"golang.org/x/tools/go/ssa"
@@ -157,7 +158,10 @@ func cmdCheck(args []string) {
 	if target == "" {
 		usage()
 	}
-	os.Exit(runCheck(target, *tier, envOr("YQ_REPO", "/repo"), envOr("VERIF_DIR", "/verif"), true))
+	release := acquireSlot(envOr("VERIF_DIR", "/verif"))
+	code := runCheck(target, *tier, envOr("YQ_REPO", "/repo"), envOr("VERIF_DIR", "/verif"), true)
+	release()
+	os.Exit(code)
 }
 
 func runCheck(id, tier, repo, verif string, writeEvidence bool) int {
@@ -261,6 +265,19 @@ func runCheck(id, tier, repo, verif string, writeEvidence bool) int {
 		}(name, fn, con)
 	}
 	wg.Wait()
+	// second chance, one at a time: an obligation that ran out of time (no counterexample) while everything else
+	// was running is tried again alone with twice the time before it is reported
+	for i := range cr.results {
+		r := &cr.results[i]
+		if r.OK || r.Res.Verdict == "sat" || r.Obl.Cover {
+			continue
+		}
+		again := P.dischargeOne(r.Obl, tmp, 2*cr.timeout, false)
+		if again.OK {
+			again.Res.Solver += "(second attempt)"
+			*r = again
+		}
+	}
 	sort.Strings(cr.fns)
 	sort.Slice(cr.results, func(i, j int) bool { return cr.results[i].Obl.Name < cr.results[j].Obl.Name })
 	// lemmas of the spec library tagged with this property
@@ -664,3 +681,31 @@ func (cr *checkRun) writeEvidenceFull(verif string, violations, total, discharge
 }
 
 // tryReplay is implemented in replay.go
+
+// acquireSlot: at most two checks of this installation run at the same time (advisory file locks under
+// .cache): every check already uses all cores, and solvers starved of CPU time out on queries they decide in
+// a second otherwise. A check that has waited 20 minutes runs anyway.
+func acquireSlot(verif string) func() {
+	if os.Getenv("YQV_NOLOCK") != "" {
+		return func() {}
+	}
+	dir := filepath.Join(verif, ".cache")
+	if os.MkdirAll(dir, 0o755) != nil {
+		return func() {}
+	}
+	deadline := time.Now().Add(20 * time.Minute)
+	for time.Now().Before(deadline) {
+		for i := 0; i < 2; i++ {
+			f, err := os.OpenFile(filepath.Join(dir, fmt.Sprintf("slot%d.lock", i)), os.O_CREATE|os.O_RDWR, 0o644)
+			if err != nil {
+				return func() {}
+			}
+			if syscall.Flock(int(f.Fd()), syscall.LOCK_EX|syscall.LOCK_NB) == nil {
+				return func() { f.Close() }
+			}
+			f.Close()
+		}
+		time.Sleep(300 * time.Millisecond)
+	}
+	return func() {}
+}
